@@ -116,6 +116,20 @@ func (s *c05state) launch(m *Module, it *c05item) {
 			done()
 			done() // additional calls do nothing
 		}()
+	case "prep-worker":
+		// launched from the prep routine (before the module was started): see mPrep
+	case "service-backoff":
+		// a service worker whose function fails: when the module is stopped it sits in its restart back-off
+		m.StartServiceWorker("swb", 0, func(ctx context.Context) error {
+			it.ctx = ctx
+			if !it.begun {
+				it.begun = true
+				vsched.Ev("item-begin:" + it.kind)
+			}
+			it.ended = true // the function itself has returned; only the back-off remains
+			s.lastEnd = vsched.Now()
+			return errors.New("service worker failed")
+		})
 	case "hook":
 		m.TriggerEvent("ev", nil)
 	case "xhook":
@@ -204,11 +218,23 @@ func VerifC05(p C05Params) *vsched.Scenario {
 		if p.StopFn != "none" {
 			mStop = stopOf(&s.m, true)
 		}
+		for _, k := range p.Items {
+			s.items = append(s.items, &c05item{kind: k})
+		}
+		// work that is launched before the module is started (from its prep routine)
+		mPrep := func() error {
+			for _, it := range s.items {
+				if it.kind == "prep-worker" {
+					s.m.StartWorker("pw", s.itemBody(it))
+				}
+			}
+			return nil
+		}
 		if p.Graph == "chain" {
 			s.d = Register("dep", nil, nil, stopOf(&s.d, false))
-			s.m = Register("mod", nil, nil, mStop, "dep")
+			s.m = Register("mod", mPrep, nil, mStop, "dep")
 		} else {
-			s.m = Register("mod", nil, nil, mStop)
+			s.m = Register("mod", mPrep, nil, mStop)
 		}
 		if p.Graph == "xsrc" {
 			s.src = Register("src", nil, nil, nil)
@@ -216,9 +242,6 @@ func VerifC05(p C05Params) *vsched.Scenario {
 			s.src.Enable()
 		}
 		s.m.RegisterEvent("ev", true)
-		for _, k := range p.Items {
-			s.items = append(s.items, &c05item{kind: k})
-		}
 		hookIdx := 0
 		_ = s.m.RegisterEventHook("mod", "ev", "h", func(ctx context.Context, _ interface{}) error {
 			s.hookRuns++
